@@ -46,20 +46,28 @@ fn oracle_class(x: &[u8], rec: &mut Recorder) {
 
 pub fn judge(x: &[u8], rec: &mut Recorder) {
     oracle_class(x, rec);
-    // views of the accepted header, each call guarded separately so that a panic is attributed
-    let parsed = guard(|| v1::Header::try_from(x).ok().map(|h| h.to_owned()));
-    rec.event();
-    let h = match parsed {
-        Ok(Some(h)) => h,
-        _ => {
-            rec.case(hash_bytes(x), false);
-            return;
+    // the header as returned by each entry point: try_from(&[u8]) (kept borrowed-then-owned),
+    // try_from(&str), str::parse::<Header>()
+    let mut any = false;
+    for entry in 0..3 {
+        let parsed = guard(|| match entry {
+            0 => v1::Header::try_from(x).ok().map(|h| h.to_owned()),
+            1 => std::str::from_utf8(x).ok().and_then(|s| v1::Header::try_from(s).ok()).map(|h| h.clone().to_owned()),
+            _ => std::str::from_utf8(x).ok().and_then(|s| s.parse::<v1::Header<'static>>().ok()),
+        });
+        rec.event();
+        if let Ok(Some(h)) = parsed {
+            any = true;
+            judge_header(x, &h, ["try_from(&[u8])", "try_from(&str)", "parse::<Header>"][entry], rec);
         }
-    };
-    rec.case(hash_bytes(x), true);
+    }
+    rec.case(hash_bytes(x), any);
+}
+
+fn judge_header(x: &[u8], h: &v1::Header<'static>, via: &str, rec: &mut Recorder) {
     let text = h.header.to_string();
     let viol = |rec: &mut Recorder, rule: &str, d: String| {
-        rec.violation(rule, enc_case("v1", x), skeleton_text(x), format!("{} on accepted header {:?}: {}", rule, show(text.as_bytes(), 140), d));
+        rec.violation(&format!("{}:{}", rule, via), enc_case("v1", x), skeleton_text(x), format!("{} (header from {}) on accepted header {:?}: {}", rule, via, show(text.as_bytes(), 140), d));
     };
     // the line as the input has it
     let cr = x.iter().position(|&b| b == b'\r');
